@@ -56,6 +56,22 @@ pub struct PanicInfo {
     pub location: String,
 }
 
+/// Liveness heartbeat for the wall-clock watchdog: milliseconds since process start of the
+/// last moment the *harness* was in control (between two calls into the system under test).
+static HEARTBEAT_MS: std::sync::atomic::AtomicU64 = std::sync::atomic::AtomicU64::new(0);
+static START: std::sync::OnceLock<std::time::Instant> = std::sync::OnceLock::new();
+
+pub fn heartbeat() {
+    let t = START.get_or_init(std::time::Instant::now).elapsed().as_millis() as u64;
+    HEARTBEAT_MS.store(t, Ordering::Relaxed);
+}
+
+/// Milliseconds since the last heartbeat.
+pub fn since_heartbeat_ms() -> u64 {
+    let t = START.get_or_init(std::time::Instant::now).elapsed().as_millis() as u64;
+    t.saturating_sub(HEARTBEAT_MS.load(Ordering::Relaxed))
+}
+
 thread_local! {
     static LAST_PANIC: RefCell<Option<PanicInfo>> = const { RefCell::new(None) };
     static WORLD: RefCell<Option<World>> = const { RefCell::new(None) };
@@ -281,6 +297,7 @@ pub enum PollOutcome {
 
 /// Polls one task once, outside the world borrow.
 pub fn poll_task(id: TaskId) -> PollOutcome {
+    heartbeat();
     let (fut, waker) = match with(|w| {
         w.wakeq.set.lock().unwrap().remove(&id);
         let fut = w.tasks.remove(&id)?;
@@ -373,6 +390,7 @@ pub fn running_jobs() -> Vec<JobId> {
 
 /// Runs the body of a queued job on the simulation thread (outside the world borrow).
 pub fn start_job(id: JobId) {
+    heartbeat();
     let job = with(|w| w.jobs.remove(&id));
     if let Some(Job::Queued(run)) = job {
         with(|w| w.log(Ev::JobStarted(id)));
